@@ -286,13 +286,16 @@ def replay(n, bs, vp, with_cond, epochs):
     import optax
     from flowjax.train.data_fit import fit_to_data
     seen = []
+    keys_seen = []
 
     def loss_fn(params, static, x, condition=None, key=None):
-        def cb(xv, cv, g):
+        def cb(xv, cv, g, kd):
             seen.append((np.asarray(xv)[:, 0].round().astype(int).tolist(), np.asarray(cv)[:, 0].round().astype(int).tolist(), bool(g)))
+            keys_seen.append(tuple(np.asarray(kd).ravel().tolist()))
         # gradient steps are traced through value_and_grad: mark them with a flag derived from params' tracer type
         is_grad = isinstance(params, jax.core.Tracer) and "JVP" in type(params).__name__
-        jax.debug.callback(cb, x, x if condition is None else condition, jnp.asarray(is_grad), ordered=True)
+        kd = jr.key_data(key) if (key is not None and jnp.issubdtype(key.dtype, jax.dtypes.prng_key)) else (jnp.zeros((2,), jnp.uint32) if key is None else key)
+        jax.debug.callback(cb, x, x if condition is None else condition, jnp.asarray(is_grad), kd, ordered=True)
         return jnp.sum(params * 0.0)
     x = jnp.arange(n, dtype=float)[:, None] * jnp.ones((1, 2))
     c = jnp.arange(n, dtype=float)[:, None] if with_cond else None
@@ -300,6 +303,7 @@ def replay(n, bs, vp, with_cond, epochs):
     runs = []
     for rep in range(2):
         seen.clear()
+        keys_seen.clear()
         try:
             fit_to_data(jr.PRNGKey(3), jnp.array(0.0), x, condition=c, loss_fn=loss_fn, max_epochs=epochs, max_patience=10 ** 6, batch_size=bs, val_prop=vp,
                         optimizer=optax.sgd(0.0), show_progress=False)
@@ -307,6 +311,11 @@ def replay(n, bs, vp, with_cond, epochs):
         except Exception as e:  # noqa
             return True, f"real fit_to_data raised {type(e).__name__}: {e}"
         runs.append(list(seen))
+        if len(set(keys_seen)) != len(keys_seen):
+            dup = [k for k in set(keys_seen) if keys_seen.count(k) > 1]
+            problems.append(f"{len(keys_seen) - len(set(keys_seen))} of the {len(keys_seen)} batches of one run received a key that another batch also received (e.g. {dup[0]})")
+        if any(k == (0, 0) for k in keys_seen) and rep == 0:
+            pass
     if runs[0] != runs[1]:
         problems.append("same key gave different runs")
     ev = runs[0]
